@@ -100,6 +100,7 @@ structure Mod where
   subFeats : List (List Feat) := []
   impRes : List MKey := []            -- `imports[u].module`, filled while the imports are resolved
   parsing : Bool := false
+  broken : Bool := false              -- ghost: added to the context by a `lys_parse_in` that has not (yet) succeeded (F54)
   toCompile : Bool := false
   compiled : Option (Nat × Desc) := none   -- (identity of the compiled nodes, content)
   augBy : List MKey := []
@@ -113,6 +114,7 @@ structure Ctx where
   explicit : Bool := false            -- LY_CTX_EXPLICIT_COMPILE
   privParsed : Bool := false          -- LY_CTX_SET_PRIV_PARSED
   changeCount : BitVec 16 := 0        -- `uint16_t change_count` (relative to the value after `ly_ctx_new`)
+  ticks : Nat := 0                    -- ghost: the number of increments ever performed (unbounded)
   nextId : Nat := 1
   creating : List MKey := []          -- `ctx->unres.creating`
   implementing : List MKey := []      -- `ctx->unres.implementing`
@@ -230,6 +232,12 @@ def setFeatures (m : Mod) (arg : FeatArg) : Option (Mod × Bool) :=
               m.allFeats.any (fun f => f.on != want.contains f.name))
       else none
 
+/-- the in-place effect of `lys_set_features` on module `k` of the context (nothing on LY_EINVAL) -/
+def setFeatsPrim (k : MKey) (arg : FeatArg) (s : Ctx) : Ctx :=
+  s.upd k fun m => match setFeatures m arg with
+    | some (m', _) => m'
+    | none => m
+
 /-- `lys_check_features`: an enabled feature whose (first) if-feature is false -/
 def Mod.featuresOk (m : Mod) : Bool :=
   m.allFeats.all fun f => !f.on || match f.iff with
@@ -262,7 +270,7 @@ def compileOne (k : MKey) : M Unit := modS fun s =>
   | none => s
   | some m =>
     { (s.upd k fun m' => { m' with compiled := some (s.nextId, s.descOf m) }) with
-      changeCount := s.changeCount + 1, nextId := s.nextId + 1 }
+      changeCount := s.changeCount + 1, ticks := s.ticks + 1, nextId := s.nextId + 1 }
 
 /-! ## parsing and loading -/
 
@@ -311,8 +319,8 @@ def parseIn : Nat → ModSrc → Option (Option Bytes) → M MKey
             | some ok => updM ok fun m => { m with latest := { m.latest with rev := false, dirs := false } }
             | none => pure ()
             let k : MKey := (src.name, src.rev)
-            modS fun s => { s with mods := s.mods ++ [{ newMod src lflags with parsing := true }],
-                                   creating := s.creating ++ [k], changeCount := s.changeCount + 1 }
+            modS fun s => { s with mods := s.mods ++ [{ newMod src lflags with parsing := true, broken := true }],
+                                   creating := s.creating ++ [k], changeCount := s.changeCount + 1, ticks := s.ticks + 1 }
             forEach src.imports fun (iname, irev) => do
               let t ← parseLoad fuel iname (if irev.isEmpty then none else some irev)
               (if irev.isEmpty then updM t fun m => { m with latest := { m.latest with imp := true } } else pure ())
@@ -320,7 +328,9 @@ def parseIn : Nat → ModSrc → Option (Option Bytes) → M MKey
             updM k fun m => { m with parsing := false }
             match src.fault .late with
             | some rc => failS rc
-            | none => pure k
+            | none => do
+              updM k fun m => { m with broken := false }
+              pure k
 
 /-- `lys_parse_load` with `lys_parse_load_from_clb_or_file` on the callback route (search dirs disabled) -/
 def parseLoad : Nat → Bytes → Option Bytes → M MKey
@@ -455,8 +465,8 @@ def implement (k : MKey) (arg : FeatArg) : M Bool := do
     | none =>
       match setFeatures m arg with
       | none => failS EINVAL
-      | some (m', _) => do
-        updM k fun _ => m'
+      | some _ => do
+        modS (setFeatsPrim k arg)
         implementCore (s.mods.length + 2) k
 
 /-- `_lys_set_implemented` -/
@@ -468,8 +478,10 @@ def setImplementedInner (k : MKey) (arg : FeatArg) : M Unit := do
     if m.implemented then
       match setFeatures m arg with
       | none => failS EINVAL
-      | some (m', changed) =>
-        if changed then updM k fun _ => { m' with toCompile := true }     -- the flags are flipped in place (F4)
+      | some (_, changed) =>
+        if changed then do
+          modS (setFeatsPrim k arg)                                       -- the flags are flipped in place (F4)
+          updM k fun x => { x with toCompile := true }
         else pure ()
     else do
       let _ ← implement k arg
@@ -595,7 +607,7 @@ def compileChecked (k : MKey) : M Unit := do
     match compileFault s m with
     | some rc => do
       -- `lys_compile` counts before it can fail
-      modS fun s => { s with changeCount := s.changeCount + 1 }
+      modS fun s => { s with changeCount := s.changeCount + 1, ticks := s.ticks + 1 }
       failS rc
     | none => compileOne k
 
@@ -612,27 +624,31 @@ def unresLoop : Nat → List MKey → List MKey → M Bool
     | some rc => failS rc
     | none => pure false
   | fuel + 1, k :: rest, done => do
-    let s ← getS
-    match s.find k with
-    | none => unresLoop fuel rest done
-    | some m =>
-      let (rec, extra) ← foldlS m.src.lrefs ((false, []) : Bool × List MKey) fun (st : Bool × List MKey) tn =>
-        if st.1 then pure st else
-        match m.impKey tn with
+    let s0 ← getS
+    let lrefs := match s0.find k with
+      | some m => m.src.lrefs
+      | none => []
+    let (rec, extra) ← foldlS lrefs ((false, []) : Bool × List MKey) fun (st : Bool × List MKey) tn =>
+      if st.1 then pure st else do
+        let s ← getS
+        match s.find k with
         | none => pure st
-        | some tk => do
-          let s ← getS
-          match s.find tk with
+        | some m =>
+          if !m.implemented then pure st else        -- (the C asserts it)
+          match m.impKey tn with
           | none => pure st
-          | some t => do
-            let r ← (if !t.implemented then implement tk none else pure false)
-            if r then pure (true, st.2) else do
-              let s' ← getS
-              if ((s'.find tk).map (·.compiled.isNone)).getD false then do
-                compileChecked tk
-                pure (false, st.2 ++ [tk])
-              else pure st
-      if rec then pure true else unresLoop fuel (rest ++ extra) (done ++ [k])
+          | some tk =>
+            match s.find tk with
+            | none => pure st
+            | some t => do
+              let r ← (if !t.implemented then implement tk none else pure false)
+              if r then pure (true, st.2) else do
+                let s' ← getS
+                if ((s'.find tk).map (·.compiled.isNone)).getD false then do
+                  compileChecked tk
+                  pure (false, st.2 ++ [tk])
+                else pure st
+    if rec then pure true else unresLoop fuel (rest ++ extra) (done ++ [k])
 
 /-- `lys_compile_depset_r` -/
 def depsetR : Nat → List MKey → M Unit
@@ -714,7 +730,6 @@ def implementAndCompile (k : MKey) (feats : FeatArg) : M Unit := do
   if s.explicit then pure () else do
     depSetsM (some k)
     compileAll
-    modS erase
 
 /-- the part of an operation before the error handling -/
 def forward : Op → M Unit
@@ -733,7 +748,7 @@ def forward : Op → M Unit
   | .setOpt ex pp => do
     let s ← getS
     (if pp && !s.privParsed then do
-      modS fun s => { s with privParsed := true, changeCount := s.changeCount + 4,   -- the four implemented internal modules
+      modS fun s => { s with privParsed := true, changeCount := s.changeCount + 4, ticks := s.ticks + 4,   -- the four implemented internal modules
                              mods := s.mods.map fun m => if m.implemented then { m with toCompile := true } else m }
       depSetsM none
       compileAll
@@ -754,7 +769,8 @@ def run (s : Ctx) (op : Op) : Except Nat Unit × Ctx :=
     match op with
     | .compile => (.ok (), erase s1)
     | .setOpt _ pp => (.ok (), if pp && !s.privParsed then erase s1 else s1)     -- `ly_ctx_compile` erases
-    | _ => (.ok (), s1)
+    | .unsetOpt _ _ => (.ok (), s1)
+    | _ => (.ok (), if s1.explicit then s1 else erase s1)                        -- "unres resolved"
   | (.error e, s1) =>
     match op with
     | .setOpt _ _ => (.error e, { erase (revert s1) with privParsed := false })
